@@ -112,7 +112,10 @@ def string(value, linecontinuation=True):
     value.  In front of a newline character it is written as ``\\5c`` and
     a line continuation: the tokenizer removes backslash + newline from a
     STRING token after it has resolved the escapes, so backslash + escaped
-    newline alone would vanish.  ``linecontinuation=False`` is for the
+    newline alone would vanish.  The continuation is spelled with a form
+    feed, which CSS treats as a newline but which is no line separator of
+    the serializer (the text of a block is split into lines again when it
+    is indented).  ``linecontinuation=False`` is for the
     string inside ``url()``, where the tokenizer does not do that.
     """
     out = []
@@ -126,7 +129,7 @@ def string(value, linecontinuation=True):
                 state = 2
                 continue
             out.append('\\5c ' if c in _hexdigits else
-                       '\\5c \\\n' if linecontinuation and c in _string_newlines else '\\')
+                       '\\5c \\\f' if linecontinuation and c in _string_newlines else '\\')
             state = 0
         elif state == 2:
             if c == '\\':
@@ -134,7 +137,7 @@ def string(value, linecontinuation=True):
                 state = 1
                 continue
             out.append('\\5c ' if c in _hexdigits else
-                       '\\5c \\\n' if linecontinuation and c in _string_newlines else '\\')
+                       '\\5c \\\f' if linecontinuation and c in _string_newlines else '\\')
             state = 0
         elif c == '\\':
             state = 1
